@@ -41,10 +41,10 @@ from vlib.gen_grids import (  # noqa: E402
 
 PROPERTY = "C01"
 RULE = ("(a) non-trivial = >= 3 cells on every differentiated axis and an input with non-zero "
-        "ghost and valid cells; distinct = (grid incl. geometry, operator, options, dtype, "
-        "backend).  (b) non-trivial = discretisation error above the round-off "
-        "floor on the two finest levels; distinct = (grid class, hole, base shape, operator, "
-        "options, field seed)")
+        "ghost and valid cells; distinct = whole case (grid incl. geometry, operator, options, "
+        "dtype, backend, data seed).  (b) non-trivial = discretisation error above the round-off "
+        "floor on the two finest levels; distinct = whole case (grid, operator, options, field "
+        "seed)")
 ASSUMPTIONS = [
     "raw operators are applied to ghost-padded arrays (boundary conditions are property C02/C03)",
     "inputs of the spherical operators respect the symmetry their `safe` mode asserts "
@@ -245,7 +245,7 @@ def check_stencil(case):
     labels.append("cells>=3" if nt else "cells<3")
     if numba_disabled():
         labels.append("nojit")
-    return {"nt": nt, "key": [spec, op, opts, dtype, backend], "labels": labels}
+    return {"nt": nt, "labels": labels}
 
 
 def _bilinear_gradient(g, opts, u, v):
@@ -467,8 +467,7 @@ def check_refine(case):
     for region, (r, _thr, _e) in verdict.items():
         if r is not None:
             labels.append(f"order({region})~{min(4, max(-1, round(r[1] * 2) / 2))}")
-    return {"nt": not trivial,
-            "key": [g.family, hole, list(spec["shape"]), op, opts, case["seed"]], "labels": labels}
+    return {"nt": not trivial, "labels": labels}
 
 
 # ---- dedicated sub-check for the known finding F-C01 -------------------------------------
@@ -557,8 +556,8 @@ SUBCHECKS = [
              rule="hole-free spherical grid, conservative tensor_divergence / tensor_double_divergence; raises "
                   "the F-C01 known-finding keys while the deviation reproduces"),
     # (a) interpreted breadth and the scipy backend
-    _stencil("stencil_curvilinear_nojit", ("polar", "sph", "cyl"), "named", "nojit", 3600, 60000, 1),
-    _stencil("stencil_cartesian_nojit", ("unit", "cart"), "named", "nojit", 2400, 40000, 1),
+    _stencil("stencil_curvilinear_nojit", ("polar", "sph", "cyl"), "named", "nojit", 4500, 60000, 1),
+    _stencil("stencil_cartesian_nojit", ("unit", "cart"), "named", "nojit", 3000, 40000, 1),
     _stencil("stencil_derivative_patterns_nojit", _ALL, "patterns", "nojit", 1500, 20000, 1),
     _stencil("stencil_scipy", ("unit", "cart"), "scipy", "pure", 1500, 20000, 1),
 ]
